@@ -106,5 +106,40 @@ PROPS["C04"] = {
     "shrink": False,
 }
 
+PROPS["C05"] = {
+    "id": "C05",
+    "lean_modules": ["JT.Props.C05"],
+    "functional_ops": [],
+    "rule": ("transfers of 1..8 (thorough: 1..40) non-empty packets (equal/unequal lengths, escape-dense bodies, up to 1023 bytes), packet 1 first then 2..N shuffled with duplicates, interleaved with a second concurrent transfer of another id (sometimes left incomplete), "
+             "unfragmented messages, packets numbered 0 / N+1 / N+2 / 65535 and packets of an id with no packet 1; delivered one packet per read into the reader's reused 1023-byte buffer, coalesced, or split into 1..40-byte reads; "
+             "EXHAUSTIVELY all arrival orders for N <= 4 (thorough <= 5). non-trivial = session in which a reassembled message is delivered."),
+    "technique": "Lean 4 proof (invariant over the slot table, induction over the arrival list) about a model of completePack + differential correspondence through an add-only hook + reassembly oracle",
+    "level_text": ("Machine-checked Lean 4 theorems about a model of packageParse.completePack, for every id, every N >= 1, all non-empty bodies, any initial table and ANY admissible arrival list (packets 2..N in any order with duplicates, "
+                   "other ids incl. whole transfers, unfragmented messages, impossible numbers 0 or > N): the completions for the id are none until all of 1..N have arrived and exactly one message with the concatenated bodies once they have "
+                   "(stated for every prefix, hence 'as soon as the last missing packet arrives'), no panic for any message, other ids untouched. The model runs against the real packageParse on every run with the reader's buffer reuse, "
+                   "and the harness checks the implementation directly against expected reassembly results. Composition with stream framing is C04."),
+    "level_note": "Trusted: Lean kernel; hand-written model tied by sampled correspondence; hook accessor; harness. The theorem needs non-empty packet bodies (the code counts non-empty slots) — stated explicitly.",
+    "trusted_base": _PARSE_TB,
+    "assumptions": ["packet bodies are non-empty", "packet 1 arrives first and is not duplicated (the property's quantifier)"],
+    "shrink": False,
+}
+
+PROPS["C14"] = {
+    "id": "C14",
+    "lean_modules": ["JT.Props.C14"],
+    "functional_ops": [],
+    "rule": ("transfers of 2..12 (thorough: up to 255) packets with a random non-empty set of missing numbers, optional second concurrent transfer, then 1..5 rounds of idle time from {0,1,2,4,5,6,9,11,30,54,59,60,61 s} followed by inbound data "
+             "(heartbeat, partial resupply, full resupply), late packets after completion/expiry; EXHAUSTIVELY every non-empty missing subset for N <= 6 (thorough <= 10) with idle 4 s / +2 s / +1 s. "
+             "Stored timestamps are moved back by the hook instead of sleeping (whole seconds; a session that takes > 0.4 s of real time is re-run). non-trivial = session with a re-request or a completion."),
+    "technique": "Lean 4 proof about a model of deleteTimeoutPackage/supplementarySubPackage with time as a parameter (uses the C01 round-trip theorem) + differential correspondence with shifted timestamps + re-request oracle",
+    "level_text": ("Machine-checked Lean 4 theorems: the re-request body is the serial of packet 1, the count and exactly the missing package numbers (membership iff 1..N and not arrived; strictly ascending) for up to 255 missing numbers, "
+                   "carried in a 0x8003 frame addressed with the transfer's phone and version (via the C01 round trip); a re-request is produced exactly for transfers younger than 60 s that were idle for 5 s; a transfer re-requested at t is not re-requested "
+                   "again before t + 5 s; a transfer older than 60 s is removed and no later traffic can make it complete; records are handled independently. Time is a parameter of the model; the real code is driven with shifted timestamps and compared on every run."),
+    "level_note": "Trusted: Lean kernel; model tied by sampled correspondence; hook that shifts stored timestamps (wall clock replaced by a parameter); harness.",
+    "trusted_base": _PARSE_TB,
+    "assumptions": ["time.Now is modelled as a non-decreasing parameter; the strict comparison `After` is `>=` on whole-second shifts (real time advances a few microseconds per call)", "at most 255 packets per transfer for the count byte"],
+    "shrink": False,
+}
+
 # properties that are not claimed, with the reason (anything not listed and not in PROPS gets a generic "not built yet")
 NOT_APPLICABLE = {}
